@@ -132,9 +132,12 @@ class AndersonCD(BaseSolver):
             if stop_crit <= self.tol:
                 break
             # 1) select features : all unpenalized, + 2 * (nnz and penalized)
+            # (unpenalized features may be zero, e.g. at a positivity bound: count the
+            # penalized part of the support only, otherwise the slots reserved for new
+            # features can vanish and the solver stalls)
+            gsupp_pen = (penalty.generalized_support(w[:n_features]) & pen).sum()
             ws_size = max(min(self.p0 + n_unpen, n_features),
-                          min(2 * penalty.generalized_support(w[:n_features]).sum() -
-                              n_unpen, n_features))
+                          min(n_unpen + 2 * gsupp_pen, n_features))
 
             opt[unpen] = np.inf  # always include unpenalized features
             opt[penalty.generalized_support(w[:n_features])] = np.inf
